@@ -2,7 +2,7 @@
 import ast
 
 from .. import quant, scales
-from ..core import AnalysisError, U, bind_call, fold_int, inline, path_facts, paths_of, positional_params
+from ..core import strip_noop_calls, AnalysisError, U, bind_call, fold_int, inline, path_facts, paths_of, positional_params
 
 TITLE = "int2/int4 affine quantization error is at most half a step per group"
 
@@ -123,7 +123,7 @@ def requested_config(chk, rule):
         if p.end[0] != "return" or path_facts(p).get(f"{qt}.bits == 8") is not False:
             continue
         n += 1
-        e = p.end[1]
+        e = strip_noop_calls(p.end[1]) if p.end[1] is not None else None  # detach / clone / contiguous of the scale do not change what is quantized
         site = f"{mi_q.rel}:{p.end[2]}"
         a = [U(x) for x in e.args] if isinstance(e, ast.Call) else []
         ok = U(e.func) == "AffineQuantizer.apply" and a[:4] == [t, qt, ax, gs] if isinstance(e, ast.Call) else False
